@@ -1,8 +1,10 @@
 (* C06 - Unit conversion changes values and unit labels together, or neither.
    Only statements here; every proof is one [exact] of a lemma from Proofs/.
    V = a column's values (opaque), conv = the converter (any function; None = it raises). *)
-From PdV.Model Require Import Convert.
-From PdV Require Import ConvertProofs.
+From Coq Require Import List.
+From PdV.Model Require Import Convert Normalize.
+From PdV Require Import ConvertProofs NormalizeProofs.
+Import ListNotations.
 
 (* For every table, dispatcher form and converter: convert_units fails as a whole, or returns the
    same columns in the same order where each column is [converted] for its target: identical when
@@ -37,6 +39,34 @@ Theorem C06_failure_propagates :
     convert_col conv c t = inr e -> exists e', convert_all conv cols ts = inr e'.
 Proof. exact failure_propagates. Qed.
 Print Assumptions C06_failure_propagates.
+
+(* The bulk form (normalized_table_generator, pdtable/utils.py): the stream keeps its shape - block
+   for block the delivered block is what norm_block makes of the input block: a non-table block
+   itself, a table without a dispatcher itself, a dispatched table its convert_units result - and
+   when a conversion fails exactly the blocks before that table have been delivered. *)
+Theorem C06_stream :
+  forall (V : Type) (conv : str -> option str -> V -> option (V * str)) (td : tdispatch)
+         (bs out : list (sblock V)) (err : option cerr),
+    normalize conv td bs = (out, err) ->
+    Forall2 (fun b b' => norm_block conv td b = inl b') (firstn (length out) bs) out /\
+    match err with
+    | None => length out = length bs
+    | Some e => exists b, nth_error bs (length out) = Some b /\ norm_block conv td b = inr e
+    end.
+Proof. exact normalize_spec. Qed.
+Print Assumptions C06_stream.
+
+Theorem C06_stream_passes_others :
+  forall (V : Type) (conv : str -> option str -> V -> option (V * str)) (td : tdispatch) t,
+    norm_block conv td (SBOther t) = inl (SBOther t).
+Proof. exact norm_block_other. Qed.
+Print Assumptions C06_stream_passes_others.
+
+Theorem C06_stream_undispatched :
+  forall (V : Type) (conv : str -> option str -> V -> option (V * str)) (td : tdispatch) n cols,
+    td n = None -> norm_block conv td (SBTable n cols) = inl (SBTable n cols).
+Proof. exact norm_block_undispatched. Qed.
+Print Assumptions C06_stream_undispatched.
 
 (* non-vacuity: m -> mm through a dict, text column untouched *)
 Example C06_example :
